@@ -134,11 +134,20 @@ Call(ev)  ==
   ELSE /\ ~IsOk(r)
        /\ UNCHANGED <<reg, dmap, idmap>>
 
+(* C06 on raw bytes (valid encodings mutated at the byte level, random bytes): the decoder either
+   fails or returns an envelope that re-encodes to exactly the input, the #6.24 alias aside; it
+   never panics (a recorded panic has no step here). *)
+DecodeBytes(ev) ==
+  /\ \/ ev.out = "err"
+     \/ ev.out = "ok" /\ (ev.extra.reencode_equal \/ ev.extra.alias_equal)
+  /\ UNCHANGED <<reg, dmap, idmap>>
+
 TraceNext ==
   /\ l <= Len(Rec)
   /\ l' = l + 1
   /\ LET ev == Rec[l] IN
      CASE ev.op = "reset" -> Reset(ev)
+       [] ev.op = "decode_bytes" -> DecodeBytes(ev)
        [] ev.op = "drop"  -> Drop(ev)
        [] OTHER           -> Call(ev)
 
